@@ -35,7 +35,7 @@ func c18Profile(flagCount uint32) app.Profile {
 		MaxNodes: 5, MaxExt: 4, FlagCount: flagCount,
 		Menus: true, Sinks: false,
 		ExtLang: true, ExtErrPct: 2,
-		SingleRoute: true, RelTargets: true, Translations: true,
+		SingleRoute: true, RelTargets: true, Translations: true, StaticSyms: true,
 		CatchShape: -1,
 	}
 }
@@ -158,6 +158,17 @@ func runC18(c *core.Ctx) *core.Outcome {
 			}
 			if ob.page.Lang != want {
 				return finishModel(o, c, r).Fail("wrong-template-language", i, map[string]string{"stack": stackName(dbStack)}, "request %d input %s: page of %s is the %q template, selected language %q, translations exist for %v", i, short(string(in)), ob.exp.Node, ob.page.Lang, renderLang, tplLangs(nd))
+			}
+			// values shown: what was loaded in the language in force at load time (static-load symbols)
+			for sym, shown := range ob.page.Vals {
+				if mv := findSym(r, sym); mv != nil && mv.Val != shown {
+					x := a.ExtSym(sym)
+					kind := "scripted"
+					if x != nil && x.Static != nil {
+						kind = "static-load"
+					}
+					return finishModel(o, c, r).Fail("wrong-value-language", i, map[string]string{"stack": stackName(dbStack), "kind": kind}, "request %d: page of %s shows %s=%q, loaded value per model %q (%s symbol, selected language %q)", i, ob.exp.Node, sym, shown, mv.Val, kind, renderLang)
+				}
 			}
 			// menu labels
 			if nd != nil {
